@@ -7,6 +7,7 @@ import (
 	"syscall"
 
 	nas "github.com/free5gc/nas"
+	"github.com/free5gc/nas/nasMessage"
 
 	"verifharness/internal/core"
 	"verifharness/internal/refcodec"
@@ -70,11 +71,40 @@ func c01Cover(c *core.Ctx, b []byte, ep int, err error) {
 	c.Cover("reach", epNames[ep]+":unknown-type-"+fam)
 }
 
+// decodeUsed decodes into a receiver that has been used before, the way a
+// caller that keeps one Message per UE context does: its SecurityHeader still
+// describes the outer header of a protected PDU (type 1..4, chosen to match the
+// input's own security header type nibble when that is one of them) and both
+// family bodies are populated from an earlier decode.
+func decodeUsed(b []byte, ep int) error {
+	m := nas.NewMessage()
+	t := uint8(1 + len(b)%4)
+	if len(b) > 1 && b[1]&0x0f >= 1 && b[1]&0x0f <= 4 {
+		t = b[1] & 0x0f
+	}
+	m.SecurityHeader = nas.SecurityHeader{ProtocolDiscriminator: 0x7e, SecurityHeaderType: t, MessageAuthenticationCode: 0x01020304, SequenceNumber: 9}
+	m.GmmMessage = nas.NewGmmMessage()
+	m.GmmMessage.RegistrationComplete = nasMessage.NewRegistrationComplete(0)
+	m.GsmMessage = nas.NewGsmMessage()
+	m.GsmMessage.PDUSessionReleaseComplete = nasMessage.NewPDUSessionReleaseComplete(0)
+	in := b
+	switch ep {
+	case epPlain:
+		return m.PlainNasDecode(&in)
+	case epGmm:
+		return m.GmmMessageDecode(&in)
+	}
+	return m.GsmMessageDecode(&in)
+}
+
 // oracle "total": B=[input] I=[entry]
 func c01Total(c *core.Ctx, k *core.Case) {
 	b, ep := k.B[0], int(k.I[0])
 	_, err := decode3(b, ep)
 	c.Eval(1)
+	if uerr := decodeUsed(b, ep); (uerr == nil) != (err == nil) {
+		c.Fail(k, "used-receiver-changes-verdict:"+epNames[ep], fmt.Sprintf("%s on %s: fresh receiver err=%v, a receiver used before err=%v", epNames[ep], hx(b), err, uerr))
+	}
 	if !c.Replay {
 		c01Cover(c, b, ep, err)
 	}
@@ -354,12 +384,62 @@ func init() {
 				}
 			}})
 		}
+		us = append(us, domainUnits(sp, msgs, tier, 30, func(c *core.Ctx, d *domainPDU, i int) {
+			ep := entryFor(d.Def, i)
+			k := &core.Case{Oracle: "total", Target: "nas.Message." + epNames[ep], B: [][]byte{d.B}, I: []int64{ep}}
+			c.Do(k)
+			if i%16 == 0 {
+				c.NonTrivial(k.Hash())
+			}
+		})...)
+		for _, def := range msgs {
+			def := def
+			if len(def.OptSlots()) == 0 {
+				continue
+			}
+			us = append(us, core.Unit{Name: "many-" + def.Name, Weight: 5, Run: func(c *core.Ctx) {
+				for _, n := range manyCounts(c.Thorough()) {
+					b := manyOpts(def, c.R, n).Bytes()
+					for cut := len(b); cut > len(b)-6 && cut > 0; cut-- {
+						ep := entryFor(def, cut)
+						k := &core.Case{Oracle: "total", Target: "nas.Message." + epNames[ep], B: [][]byte{b[:cut]}, I: []int64{ep}}
+						c.Do(k)
+						c.NonTrivial(k.Hash())
+					}
+				}
+			}})
+		}
 		us = append(us, core.Unit{Name: "headers-and-samples", Weight: 40, Run: func(c *core.Ctx) {
 			// unknown types / discriminators, short inputs
 			for b0 := 0; b0 < 256; b0++ {
 				for _, mt := range []int{0, 1, 0x40, 0x41, 0x5d, 0x63, 0x69, 0xc0, 0xc1, 0xd6, 0xd7, 0xff} {
 					for ep := 0; ep < 3; ep++ {
 						for _, b := range [][]byte{{byte(b0)}, {byte(b0), 0, byte(mt)}, {byte(b0), 0, 0, byte(mt)}, {byte(b0), 0, byte(mt), byte(mt), 1, 2, 3}} {
+							c.Do(&core.Case{Oracle: "total", Target: "nas.Message." + epNames[ep], B: [][]byte{b}, I: []int64{int64(ep)}})
+						}
+					}
+				}
+			}
+			// every security header type nibble x every short length, three fillers
+			for sht := 0; sht < 16; sht++ {
+				for n := 0; n <= 14; n++ {
+					for fill := 0; fill < 3; fill++ {
+						b := make([]byte, n)
+						switch fill {
+						case 1:
+							c.R.Fill(b)
+						case 2:
+							for i := range b {
+								b[i] = 0x7e
+							}
+						}
+						if n > 0 {
+							b[0] = 0x7e
+						}
+						if n > 1 {
+							b[1] = byte(sht) | byte(fill)<<6
+						}
+						for ep := 0; ep < 3; ep++ {
 							c.Do(&core.Case{Oracle: "total", Target: "nas.Message." + epNames[ep], B: [][]byte{b}, I: []int64{int64(ep)}})
 						}
 					}
